@@ -52,6 +52,16 @@ func (c17) Cases(tier string, seed int64, kf *KnownFindings) []Case {
 				}
 			}
 			add(Case{Kind: "lin", N: size, K: ctor, Seed: Mix(seed, 9000+ctor*10+size), Count: hist})
+			if size <= 4 {
+				rounds := 150
+				if tier == "thorough" {
+					rounds = 4000
+				}
+				add(Case{Kind: "burst", N: size, M: []int{4, 8, 16}[(size+ctor)%3], K: ctor, Seed: Mix(seed, 9500+ctor*10+size), Count: rounds})
+				if size%2 == 1 {
+					add(Case{Kind: "burst", N: size, M: 8, K: ctor, Seed: Mix(seed, 9600+ctor*10+size), Count: rounds / 3, Opt: []string{"race"}})
+				}
+			}
 			add(Case{Kind: "block", N: size, K: ctor})
 		}
 		add(Case{Kind: "fresh", K: ctor})
@@ -333,6 +343,97 @@ func (c17) Run(c Case, env *Env) Result {
 				hs = append(hs, fmt.Sprintf("g%d %s obj=%#x fresh=%v [%d,%d]", e.G, op, e.Obj&0xffff, e.Fresh, e.Call, e.Ret))
 			}
 			res.Sample(map[string]interface{}{"ctor": ctorNames[c.K], "size": c.N, "goroutines": c.M, "history_head": hs})
+		}
+	case "burst":
+		// all holders Return at the same instant, then all Get at the same instant (spin barriers):
+		// the schedules in which a non-atomic "is it full / is it empty" test goes wrong
+		p := newPool(c.K, c.N, tm, nm)
+		m := &poolMonitor{}
+		var phase int64
+		var wg sync.WaitGroup
+		n := c.M
+		barrier := func(target int64) {
+			atomic.AddInt64(&phase, 1)
+			for atomic.LoadInt64(&phase) < target {
+				runtime.Gosched()
+			}
+		}
+		over := int64(0)
+		// reuse[r] = Gets of round r that handed out a previously returned object; no Return runs
+		// between the two barriers around the Get phase, so the pool can serve at most `size` of them
+		reuse := make([]int32, c.Count)
+		for g := 0; g < n; g++ {
+			wg.Add(1)
+			go func(g int) {
+				defer wg.Done()
+				var held []interface{}
+				for r := 0; r < c.Count; r++ {
+					base := int64(r) * 3 * int64(n)
+					for len(held) < 1+g%2 {
+						o, _ := m.get(p, g)
+						held = append(held, o)
+					}
+					barrier(base + int64(n))
+					for _, o := range held { // simultaneous Returns
+						m.ret(p, g, o)
+					}
+					held = held[:0]
+					barrier(base + 2*int64(n))
+					o, gev := m.get(p, g) // simultaneous Gets
+					if !gev.Fresh {
+						atomic.AddInt32(&reuse[r], 1)
+					}
+					if i := r % 16; i == 0 {
+						usePooled(o, val, wire)
+					}
+					held = append(held, o)
+					barrier(base + 3*int64(n))
+				}
+				for _, o := range held {
+					m.ret(p, g, o)
+				}
+			}(g)
+		}
+		wg.Wait()
+		for r, k := range reuse {
+			if int(k) > c.N {
+				viol("retains-more-than-size", fmt.Sprintf("round %d: after simultaneous Returns a pool of size %d served %d previously returned objects to the following Gets (no Return in between)", r, c.N, k))
+				break
+			}
+		}
+		// quiescent: what the pool kept
+		drained := map[uintptr]bool{}
+		nOld := 0
+		for i := 0; i < c.N+2*n+4; i++ {
+			o, ev := m.get(p, -1)
+			if ev.Fresh {
+				break
+			}
+			if drained[objID(o)] {
+				viol("drain-duplicate", fmt.Sprintf("pool (size %d) yielded object %#x twice while draining", c.N, objID(o)))
+				break
+			}
+			drained[objID(o)] = true
+			nOld++
+		}
+		if nOld > c.N {
+			atomic.AddInt64(&over, 1)
+			viol("retains-more-than-size", fmt.Sprintf("after %d rounds of simultaneous Returns a pool of size %d yielded %d previously returned objects", c.Count, c.N, nOld))
+		}
+		if m.dbl > 0 {
+			viol("double-hand-out", fmt.Sprintf("%d Get calls returned an object that the ownership table still marked as held (simultaneous Gets)", m.dbl))
+		}
+		if d := conservation(m.events); d != "" {
+			viol("conservation", d)
+		}
+		res.Evals += int64(len(m.events))
+		res.NT = append(res.NT, Hash64(fmt.Sprint(feats, c.Seed, c.Opt)))
+		res.Count("pool_ops", int64(len(m.events)))
+		res.Count("burst_rounds", int64(c.Count))
+		res.Max("fill_level_at_quiescence", int64(nOld))
+		res.Max("distinct_cross_goroutine_adjacencies", int64(adjacencies(m.events)))
+		if env.Race {
+			res.Count("ops_under_race_detector", int64(len(m.events)))
 		}
 	case "lin":
 		c17lin(c, env, &res, feats, tm, nm)
